@@ -684,6 +684,25 @@ impl World {
     fn check_sync(&mut self, target: ObjId, required: &[ObjId]) {
         let missing: Vec<ObjId> = required.iter().copied().filter(|&r| self.objs[r as usize].state != St::Dead).collect();
         if !missing.is_empty() {
+            // "upgrade succeeds if and only if the value has not been destroyed": a Weak that calls
+            // an object dead whose destructor never ran is a Weak-visible fault of its own
+            for &m in &missing {
+                if self.objs[m as usize].begins > 0 {
+                    continue;
+                }
+                let mut sc: Option<usize> = None;
+                for (s, h) in self.weaks.iter().enumerate() {
+                    if let Some(h) = h {
+                        if self.wtarget[s] == Some(m) {
+                            sc = Some(h.strong_count());
+                            break;
+                        }
+                    }
+                }
+                if sc == Some(0) {
+                    self.viol("weak", false, format!("a Weak reports #{} dead (strong_count 0) although its value has not been destroyed", m));
+                }
+            }
             self.viol(
                 "sync",
                 true,
